@@ -13,6 +13,7 @@ import (
 	"go/token"
 	"os"
 	"strconv"
+	"strings"
 
 	"golang.org/x/tools/go/ast/astutil"
 )
@@ -22,6 +23,7 @@ const base = "github.com/samber/ro/internal/verifrt/"
 func main() {
 	doSync := flag.Bool("sync", false, "redirect sync and sync/atomic, rewrite go statements")
 	doTime := flag.Bool("time", false, "redirect time")
+	stubs := flag.String("stub", "", "comma-separated importpath=stubname: redirect the import to verifrt/stubs/<stubname>")
 	flag.Parse()
 	in, out := flag.Arg(0), flag.Arg(1)
 	fset := token.NewFileSet()
@@ -77,6 +79,16 @@ func main() {
 	}
 	if *doTime {
 		swap("time", "vtime", "time")
+	}
+	if *stubs != "" {
+		for _, kv := range strings.Split(*stubs, ",") {
+			p := strings.SplitN(kv, "=", 2)
+			if len(p) != 2 {
+				continue
+			}
+			name := p[0][strings.LastIndex(p[0], "/")+1:]
+			swap(p[0], "stubs/"+p[1], name)
+		}
 	}
 	if !changed {
 		os.Exit(10) // nothing to rewrite: the caller keeps the original
